@@ -84,6 +84,8 @@ type RespObs struct {
 	Sms      []SmsObs  `json:"sms"`
 	Status   int       `json:"status"`
 	Calls    []Call    `json:"calls,omitempty"`
+	ACalls   []Call    `json:"acalls"` // the same, abstracted: kind + (for mutations) the abstract pid
+	Wf       bool      `json:"wf"`     // the rejected token/cookie of this event is well formed enough to reach storage
 	Panic    string    `json:"panic,omitempty"`
 	FaultHit bool      `json:"faultHit"`
 	Leaks    []Leak    `json:"leaks"`
@@ -327,9 +329,12 @@ func (w *World) BuildReq(e Event) Req {
 		}
 	case "ConfirmGet":
 		rq.Method = "GET"
-		rq.Path = "/auth/confirm?cnf=" + url.QueryEscape(w.mailedToken(w.ct, e, "confirm"))
+		tk := w.mailedToken(w.ct, e, "confirm")
+		rq.Path = "/auth/confirm?cnf=" + url.QueryEscape(tk)
+		_, _, rq.Wf = tokenHashes(tk)
 		if e.Junk == "missing" {
 			rq.Path = "/auth/confirm"
+			rq.Wf = false
 		}
 	case "RecoverStart":
 		rq.Path = "/auth/recover"
@@ -341,6 +346,7 @@ func (w *World) BuildReq(e Event) Req {
 		rq.Path = "/auth/recover/end"
 		pw := w.pwString(e)
 		form["token"], form["password"], form["confirm_password"] = w.mailedToken(w.rt, e, "recover"), pw, pw
+		_, _, rq.Wf = tokenHashes(form["token"])
 		if !e.Valid {
 			switch e.Junk {
 			case "mismatch":
@@ -538,7 +544,7 @@ func (w *World) learn(r Resp) {
 
 func (w *World) classify(e Event, r Resp) RespObs {
 	o := RespObs{Class: "none", Loc: "none", SeenUser: "none", SeenKeys: []string{}, Mails: []MailObs{}, Sms: []SmsObs{}, Leaks: []Leak{},
-		Status: r.Status, Calls: r.Calls, Panic: r.Panic, FaultHit: r.FaultHit}
+		Status: r.Status, Calls: r.Calls, ACalls: absCalls(r.Calls), Panic: r.Panic, FaultHit: r.FaultHit}
 	for _, m := range r.Mails {
 		mo := MailObs{Kind: m.Kind, To: []string{}}
 		for _, t := range m.To {
@@ -688,7 +694,9 @@ func (w *World) Step(e Event) (RespObs, *Req, Resp) {
 			}
 		}
 		w.In.Cook.Set(e.B, authboss.CookieRemember, v)
-		return envResp(), nil, Resp{}
+		er := envResp()
+		er.Wf = w.cookieId(v) == -2
+		return er, nil, Resp{}
 	case "AppKey":
 		w.In.Sess.Set(e.B, AppKeys[e.K], "v-"+e.K)
 		return envResp(), nil, Resp{}
@@ -716,12 +724,29 @@ func (w *World) Step(e Event) (RespObs, *Req, Resp) {
 	w.noteSMS()
 	w.learn(r)
 	ro := w.classify(e, r)
+	ro.Wf = rq.Wf
 	ro.Leaks = w.Scan(r.Log)
 	return ro, &rq, r
 }
 
 func envResp() RespObs {
-	return RespObs{Class: "none", Loc: "none", SeenUser: "none", SeenKeys: []string{}, Mails: []MailObs{}, Sms: []SmsObs{}, Leaks: []Leak{}}
+	return RespObs{Class: "none", Loc: "none", SeenUser: "none", SeenKeys: []string{}, Mails: []MailObs{}, Sms: []SmsObs{}, Leaks: []Leak{}, ACalls: []Call{}}
+}
+
+// absCalls abstracts the backend call log: the kind, and for the calls that
+// change an account's stored data the abstract pid they were made for.
+func absCalls(cs []Call) []Call {
+	out := []Call{}
+	for _, c := range cs {
+		k := "-"
+		switch c.Kind {
+		case "Save", "Create", "SaveOAuth2", "AddRememberToken", "DelRememberTokens":
+			k = AbsPid(c.Key)
+		}
+		kind := c.Kind
+		out = append(out, Call{kind, k})
+	}
+	return out
 }
 
 // ApplySeed creates the initial accounts directly in storage.
